@@ -187,6 +187,16 @@ def evaluate(case, ctx):
         novel = 0
         if tr["kind"] == "shift":
             k = tr["k"]
+            # known finding: the polyT position (first aligned base - 2) of a read aligned from base 1 or 2 of a contig
+            # is clamped to 1, which no translated copy of the read reproduces
+            clamped = set(r_["n"] for r_ in sc["reads"] if r_.get("c") is not None and r_["p"] <= 1 and
+                          r_["cg"] and r_["cg"][0][0] == 4 and r_.get("sl", "").endswith("TTTT"))
+            confined = False
+            if clamped and "read_assignments.tsv" in fa and "read_assignments.tsv" in fb:
+                xa = [T.shift_line("read_assignments.tsv", l, k) for l in parse.strip_header(fa["read_assignments.tsv"])]
+                xb = parse.strip_header(fb["read_assignments.tsv"])
+                diff = set(xa) ^ set(xb)
+                confined = bool(diff) and all(l.split("\t")[0] in clamped for l in diff)
             for key in sorted(set(fa) | set(fb)):
                 if key not in fa or key not in fb:
                     ctx.violation("C11:shift:file-set-differs", {"file": key, "k": k}, case)
@@ -195,8 +205,9 @@ def evaluate(case, ctx):
                 lb = parse.strip_header(fb[key])
                 if la != lb:
                     i = next((i for i, (x, y) in enumerate(zip(la, lb)) if x != y), min(len(la), len(lb)))
-                    ctx.violation("C11:shift:%s-differs:%s" % (key, "multiple-of-256" if k % 256 == 0 else
-                                                               "non-multiple-of-256"),
+                    ctx.violation("C11:shift:%s-differs:%s%s" % (
+                        key, "multiple-of-256" if k % 256 == 0 else "non-multiple-of-256",
+                        ":polyT-head-on-a-read-aligned-from-the-first-two-bases-of-a-contig" if confined else ""),
                                   {"file": key, "k": k, "line": i,
                                    "expected": la[i].rstrip()[:300] if i < len(la) else None,
                                    "got": lb[i].rstrip()[:300] if i < len(lb) else None}, case)
@@ -459,6 +470,36 @@ def corner_scenarios(draw):
     return sc
 
 
+@st.composite
+def contig_start_scenarios(draw):
+    """Reads that begin at the first bases of a contig (chrM, short scaffolds), with and without a polyT head, under
+    translation: inserting k bases in front of the contig must only add k."""
+    src = S.DrawSrc(draw)
+    strand = src.choice(["-", "-", "+"])
+    first = src.int(20, 70)                       # annotated start of the isoform
+    l1, gap, l2 = src.int(200, 400), src.int(200, 400), src.int(150, 300)
+    iso = [[first, first + l1 - 1], [first + l1 + gap, first + l1 + gap + l2 - 1]]
+    reads = []
+    k = 0
+    for start in (1, 2, 3, first):
+        for _ in range(src.int(1, 3)):
+            k += 1
+            chain_ = [[start, iso[0][1]], list(iso[1])]
+            reads.append(S.exact_read("r%d" % k, "chr1", strand, chain_, polya=src.int(22, 32) if src.bool(0.8) else 0))
+    length = iso[1][1] + src.int(600, 1500)
+    sc = {"chroms": [["chr1", length, src.int(1, 10 ** 6)]],
+          "genes": [{"id": "G1", "chr": "chr1", "strand": strand, "canon": "canon",
+                     "transcripts": [{"id": "G1.t1", "exons": iso}]}],
+          "overrides": build.splice_overrides("chr1", iso, strand), "reads": reads, "nfiles": 1,
+          "gtf": {"gene_records": True, "transcript_records": True},
+          "opts": ["--data_type", src.choice(["nanopore", "pacbio_ccs"]), "--no_gzip", "--threads", "1"],
+          "noise_free": True, "corner": "contig_start",
+          "transform": {"kind": "shift", "k": src.choice([1, 2, 7, 100, 256, 1000])}}
+    if src.bool(0.3):
+        sc["opts"] += ["--report_novel_unspliced", "true"]
+    return sc
+
+
 def evaluate_corner(case, ctx):
     evaluate(case, ctx)
     ctx.cls("corner=" + case["corner"])
@@ -503,4 +544,5 @@ def stages(tier):
     q = tier == "quick"
     return [Stage("equivariance", "hyp", evaluate, n=160 if q else 3000, strategy=scenarios),
             Stage("split_shift", "hyp", evaluate_split, n=32 if q else 500, strategy=split_scenarios),
-            Stage("corners", "hyp", evaluate_corner, n=80 if q else 1500, strategy=corner_scenarios)]
+            Stage("corners", "hyp", evaluate_corner, n=80 if q else 1500, strategy=corner_scenarios),
+            Stage("contig_start", "hyp", evaluate_corner, n=32 if q else 600, strategy=contig_start_scenarios)]
